@@ -2,6 +2,14 @@
 """tools/seed_table.py: the table of seeded changes for DESIGN.md section 0.5, from seeded/*/meta.json."""
 import json, os, re
 NOTES = {
+ 'C06-13': 'missed -> prefix + message also given as bytes / bytearray / tuple / memoryview, the message from the boundary values (127) half of the time',
+ 'C09-11': 'missed -> the caller uses (decodes, appends to, empties) the list an encoder returned; the next call must be unaffected',
+ 'C10-12': 'missed (outside the port kinds C10 names: the helper functions on a shared list) -> multi_send / multi_receive scenarios with a polling order other than the list order; per-sub-port exactly-once oracle',
+ 'C15-12': 'missed -> copy(skip_checks=True, **valid overrides) compared with the constructor, stored types included',
+ 'C16-12': 'missed -> the caller edits the messages an observation handed out; the file must not change',
+ 'C18-12': 'caught by disagreement only -> unscheduled server scenarios: clients leave and arrive between polls',
+ 'C20-11': 'caught by disagreement only -> backend-resolution oracle (explicit name > MIDO_BACKEND now > default; explicit api > suffix)',
+ 'C20-12': 'caught by disagreement only -> the backend\'s api must reach every constructor and device query when no api is given',
  'C05-9': 'missed -> Parser(head) followed by feed(tail) / feed_byte for every cut and container type',
  'C05-10': 'caught by disagreement only -> ParserQueue compared with a parser fed the same chunks (put() messages in place); lone one-byte chunks generated',
  'C09-10': 'missed -> every encoded meta message is also read from a track, with clip off and on',
